@@ -5,36 +5,21 @@ KERNEL = "Lean 4.33.0 kernel + elaborator; lake; axioms allowed: propext, Classi
 CORR = "hand-written Lean model tied to /repo's working tree by the correspondence run (Rust harness drives the real code through cfg(feature=\"verif\") hooks; native Lean driver answers the same case lines; answers diffed)"
 HARNESS = "harness/ (scripted readers/writers, generators, canonicalisation), the hook wrappers in /repo/src/verif.rs (forwarding only), ./check's diff"
 
-PROPS = {
-    "C07": {
-        "obligations": [
-            "read_call_exact", "utf8_read_schedule", "utf16_decode_encode", "utf32_decode_encode",
-            "reencode_eq_utf8", "reencode_reads_eq_utf8", "detect_correct", "detect_correct_bom_only",
-            "detect_counterexamples", "detect_utf8_text", "from_reader_eq_utf8",
-            "illformed_utf16_trail", "illformed_utf16_lead", "illformed_utf16_lead_eof",
-            "illformed_utf16_truncated", "illformed_utf32_unit", "illformed_utf32_truncated",
-            "no_fabrication", "slice_path_reencodes",
-        ],
-        "trusted_base": [
-            KERNEL, CORR, HARNESS,
-            "modelled exactly and checked by correspondence: Encoding::detect, Utf16Decoder, Utf32Decoder, Utf8Encoder (incl. remainder), Encoder::new / from_reader, the fast-path choice in yaml::transcode",
-            "not modelled: libyaml / serde_yaml downstream of the re-encoder (assumed to be a function of the UTF-8 byte stream; sampled end to end through translate_slice / translate_reader)",
-            "Rust std char::decode_utf16 / char::from_u32 as the independent oracle of the hook-level statement",
-        ],
-        "assumptions": [
-            "the downstream YAML parser's result depends only on the UTF-8 byte stream it reads (sampled: every generated text is translated in all 4 encodings x BOM x slice/reader x explicit/detected and compared with the UTF-8 run)",
-            "std's BufRead::fill_buf / read_exact / Chain behave per their documented contract",
-        ],
-        "rule": "cases: Encoding::detect exhaustively over 5 byte classes x prefix length 0..5; re-encoder on boundary scalars alone and in pairs, every 1-3 unit UTF-16 and 1-2 unit UTF-32 sequence over class representatives (+ stray bytes), random texts and random bytes, x 4 encodings x BOM x read-size schedules {1,2,3,4,5,7,random,large}; thorough adds all 1,112,064 scalars x 4 encodings. Implementation-level: generated YAML texts x 4 encodings x BOM x 3 supplies x explicit/detected vs the UTF-8 run. A case is non-trivial when the encoder produced at least one byte or reported an encoding error (correspondence) / the reference translation succeeded (end to end); distinct = distinct case text.",
-        "hypotheses": ["StreamFunctional(serde_yaml+libyaml) -- sampled as translate(enc_E(t)) == translate(utf8 t)"],
-    },
-}
 
-MANIFEST_TEXT = {
-    "C07": {
-        "text": "Machine-checked Lean 4 theorems over a model of src/yaml/encoding.rs, for every list of Unicode scalar values, all four non-UTF-8 encodings, BOM or not, and every sequence of read-buffer sizes: the re-encoder's byte stream equals the UTF-8 of the text (remainder hand-over included), encoding detection is correct under exact side conditions (each shown necessary by a proved counterexample), every ill-formed class ends in an error at the right offset with no fabricated byte, every char::from_u32_unchecked argument is a scalar value, and a UTF-16/32 slice never takes the UTF-8 fast path. The model is tied to the code by an exhaustive (detect) and generated (re-encoder) correspondence run on every check; the end-to-end claim additionally assumes the YAML parser is a function of the UTF-8 stream, which is sampled through xt's API.",
-        "design_ref": "DESIGN.md section 7 C07",
-        "note": "Trusted: Lean kernel; axioms propext/Classical.choice/Quot.sound only; the correspondence harness and hooks; std BufRead/Chain contracts. Not verified: libyaml/serde_yaml downstream of the re-encoder (sampled).",
-        "technique": "Lean 4 proof (induction over the item list with the buffer room generalised; omega for surrogate arithmetic) + model/implementation correspondence",
-    },
-}
+
+def _load():
+    import importlib.util, os, sys
+    props, texts = {}, {}
+    d = os.path.join(os.path.dirname(os.path.abspath(__file__)), "props")
+    sys.modules.setdefault("propsdef", sys.modules[__name__])
+    for fn in sorted(os.listdir(d)):
+        if fn.endswith(".py") and fn[0] == "C":
+            spec = importlib.util.spec_from_file_location("props_" + fn[:-3], os.path.join(d, fn))
+            m = importlib.util.module_from_spec(spec)
+            spec.loader.exec_module(m)
+            props[fn[:-3]] = m.PROP
+            texts[fn[:-3]] = m.MANIFEST
+    return props, texts
+
+
+PROPS, MANIFEST_TEXT = _load()
